@@ -106,13 +106,18 @@ func switchToParentThread(L *LState, nargs int, haserror bool, kill bool) {
 func callGFunction(L *LState, tailcall bool) bool {
 	frame := L.currentFrame
 	gfnret := frame.Fn.GFunction(L)
-	if tailcall {
-		L.currentFrame = L.RemoveCallerFrame()
-	}
-
 	if gfnret < 0 {
+		if tailcall {
+			// a tail-called yield keeps the calling frame: when the coroutine is resumed, the RETURN
+			// that follows the TAILCALL delivers the resumed values as that function's results
+			frame.ReturnBase = frame.Base
+			frame.NRet = MultRet
+		}
 		switchToParentThread(L, L.GetTop(), false, false)
 		return true
+	}
+	if tailcall {
+		L.currentFrame = L.RemoveCallerFrame()
 	}
 
 	wantret := frame.NRet
